@@ -646,10 +646,9 @@ theorem store_level_refines_chain {σ : Type} (newBackend : Bool) (sem : StateSe
 /-- … and EXACTLY which blocks the concrete `Store` refuses although the abstract one accepts them: those
 on which `MessageHash` panics (an L1 handler without calldata) and those the casm-metadata step rejects.
 No I/O class can occur: on such a node `headStateRoot` always finds the header it reads.
-LIMIT of the store-level model (round 5): the V2 hash of a compiled class is the TOTAL function `v2of`; when the
-real `CasmClass.Hash` does not return (nil `Compiled`, segment lengths beyond the bytecode) `Store` panics in the
-casm step of a block below 0.14.1 — characterised separately: `compiled_class_hash_panics_iff_flat`,
-`store_panics_on_malformed_compiled_class`. -/
+(Round 5: "the casm-metadata step rejects" now includes `CasmErr.compiledHash` — the V2 hash of a declared class's
+compiled class cannot be computed, `ClassDef.compiledBad`: a panic as the code is, an error with the repair;
+`casm_step_stops_at_malformed_compiled_class`, `compiled_class_hash_panics_iff_flat`.) -/
 theorem store_level_success_iff {σ : Type} (newBackend : Bool) (sem : StateSem σ) (n : NodeS σ) (B : Bundle)
     (commitments : Nat) (v2of : Nat → Nat) (hi : DBInv n.db n.chain) :
     (∃ n', storeDB newBackend sem n B commitments v2of = .ok n') ↔
@@ -1053,6 +1052,18 @@ theorem class_definition_tamper_rejected (l : Bool) (cs cs' : List (Term × ClsD
     have h2 := verifyClassHashesT_mem l cs' hv k c' hm'
     exact absurd (sierraClassHashWith_inj l l c' c k h2 h1) hdiff
 
+/-- THE BRIDGE to `accept`: `accept` sees a new class as (key, number `Hash()` returned). Under the standing ideal-hash
+assumption (the evaluation `eval` of hash terms to field elements is injective) the class map of a block is the image
+`classesOfT` of its term-level definitions, and an ACCEPTED block's every Sierra definition — at any position of
+`newClasses` — hashes, as a term, to its key: `accept_sound` extends to the content of class definitions. -/
+theorem accepted_block_class_definitions_verify {σ : Type} (sem : StateSem σ) (net : Net) (c c' : Chain σ) (limited : Bool)
+    (eval : Term → Nat) (hinj : ∀ a b, eval a = eval b → a = b) (block : Block) (su : StateUpdate) (cs : List (Term × ClsDef))
+    (h : accept sem net c ⟨block, su, classesOfT limited eval cs⟩ = .ok c') (k : Term) (d : SierraCls)
+    (hm : (k, ClsDef.sierra d) ∈ cs) : sierraClassHashWith limited d = some k := by
+  have hv := (accept_ok sem net c c' _ h).1.classes
+  rw [verifyClassHashes_classesOfT limited eval hinj cs] at hv
+  exact verifyClassHashesT_mem limited cs hv k d hm
+
 /-- a class as `sn2core.AdaptSierraClass` builds it (program hash = Poseidon of the program, ABI hash =
 Starknet-Keccak of the ABI): the class hash commits the program, felt by felt, and the ABI bytes as well -/
 theorem adapted_class_hash_commits_definition (l l' : Bool) (c c' : SierraCls) (x : Term)
@@ -1117,6 +1128,19 @@ theorem class_version_committed_when_limited (c c' : SierraCls) (x : Term)
   exact class_version_committed_partial true true c c' x (hl c x h) (hl c' x h') h h'
 
 /-! ### when the compiled-class hash panics (`core.CasmClass.Hash`, called by `storeCasmHashMetadataV1` inside `Store`) -/
+
+/-- the casm-metadata step of a block BELOW 0.14.1 (`storeCasmHashMetadataV1`) hashes the compiled class of every class
+the diff declares: if one of them has a Sierra definition on which that hash does not return (`compiledBad`), the step —
+hence `Store`, after the state update and all other writes went into the batch — ends with `compiledHash`, whatever the
+other entries are (it cannot succeed); from 0.14.1 on the compiled class is not hashed and the flag is not read. -/
+theorem casm_step_stops_at_malformed_compiled_class (chk : Bool) (db : IDB) (h : Header) (d : StateDiff) (classes : Classes)
+    (v2of : Nat → Nat) (v : Ver) (hp : parseVersion h.version = some v) :
+    (v.ge v0_14_1 = false → (∃ kc ∈ d.declaredV1, ∃ x, classes.find? (fun y => y.1 == kc.1) = some x ∧ x.2.cairo0 = false ∧ x.2.compiledBad = true) →
+      ∃ e, casmStepWith chk db h d classes v2of = .error e) ∧
+    (v.ge v0_14_1 = true → ∀ classes', classes'.map (fun x => (x.1, x.2.cairo0)) = classes.map (fun x => (x.1, x.2.cairo0)) →
+      (casmStepWith chk db h d classes' v2of).toOption.isSome = (casmStepWith chk db h d classes v2of).toOption.isSome) :=
+  ⟨fun hv hm => casmStepWith_stops_at_compiledBad chk db h d classes v2of v hp hv hm,
+   fun hv classes' hc => casmStepWith_v2_ignores_compiledBad chk db h d classes classes' v2of v hp hv hc⟩
 
 /-- FLAT segment lengths (what the Cairo compiler emits): `CasmClass.Hash` panics exactly when the lengths add
 up to more than the capacity of the bytecode slice — the `uint64` sum wrapping around included. -/
@@ -1185,7 +1209,7 @@ def exHeader0 : Header :=
 def exBlock0 : Block := ⟨exHeader0, [.invoke exInvoke], [exReceipt]⟩
 def exHash : Term := (blockHash exNet exBlock0 exDiff none).getD (.felt 0)
 def exBlock : Block := { exBlock0 with header := { exHeader0 with hash := exHash } }
-def exBundle : Bundle := ⟨exBlock, ⟨exHash, .felt 1001, .felt 1000, exDiff⟩, [(7, ⟨false, 7⟩), (9, ⟨true, 0⟩)]⟩
+def exBundle : Bundle := ⟨exBlock, ⟨exHash, .felt 1001, .felt 1000, exDiff⟩, [(7, ⟨false, 7, false⟩), (9, ⟨true, 0, false⟩)]⟩
 def exChain : Chain Nat := ⟨none, 0, []⟩
 
 /-- a 0.14.0-format block with an invoke-v3 transaction, an event, a message and a state diff is accepted -/
@@ -1302,6 +1326,24 @@ example : (sierraClassHashWith false (adaptSierra exSierra)).isSome = true ∧
 (after a rejected tampered copy, too) -/
 example : exBundle ∈ (run exSem exNet exChain [exEmptied, exBundle]).stored ∧
     exOldBundle ∈ (run exOldSem exOldNet exOldChain [exOldBundle]).stored := by decide
+
+/-- `classesOfT` (the class map of `accepted_block_class_definitions_verify`): a Sierra definition under the value of its own
+hash term verifies in `accept`'s `verifyClassHashes`, under another key it does not. (The evaluation used here is NOT injective —
+it only has to separate the two literals; the theorem's `hinj` is the standing ideal-hash assumption of checks/c02.json: the term
+algebra is countable, an injective evaluation exists, none is constructed.) -/
+example : verifyClassHashes (classesOfT false (fun t => match t with | .felt n => n | _ => 12345) [(.felt 12345, .sierra exSierra)]) = true ∧
+    verifyClassHashes (classesOfT false (fun t => match t with | .felt n => n | _ => 12345) [(.felt 5, .sierra exSierra)]) = false := by decide
+
+/-- `casm_step_stops_at_malformed_compiled_class`: a 0.13.2 block declaring class 7 whose definition's compiled class cannot be
+hashed ends the casm step with `compiledHash`; with a well-formed one it writes the metadata; the same block labelled 0.14.1 does
+not look at the flag -/
+example : (match casmStep [] { (default : Header) with version := asciiBytes "0.13.2", number := 4 }
+      { (default : StateDiff) with declaredV1 := [(7, .felt 9)] } [(7, ⟨false, 7, true⟩)] (fun _ => 0) with | .error e => some e | .ok _ => none)
+      = some .compiledHash ∧
+    (casmStep [] { (default : Header) with version := asciiBytes "0.13.2", number := 4 }
+      { (default : StateDiff) with declaredV1 := [(7, .felt 9)] } [(7, ⟨false, 7, false⟩)] (fun _ => 0)).toOption.isSome = true ∧
+    (casmStep [] { (default : Header) with version := asciiBytes "0.14.1", number := 4 }
+      { (default : StateDiff) with declaredV1 := [(7, .felt 9)] } [(7, ⟨false, 7, true⟩)] (fun _ => 0)).toOption.isSome = true := by decide
 
 end Examples
 
